@@ -166,6 +166,9 @@ class Cron(addons.AddonMainTask, block.SBlock):
                 if nowt.hour == 23 and wakeup.hour == 0:
                     # wrap around midnight (relying on hourly wakeups in SET24)
                     sleeptime += SEC_PER_DAY
+                elif sleeptime > SEC_PER_DAY/2:
+                    # the wakeup time was missed yesterday (forward clock jump over midnight)
+                    sleeptime -= SEC_PER_DAY
                 # sleeptime: negative = after the alarm time; positive = before the alarm time
                 if step == 0:
                     self.log_debug("sleep until wakeup: %.3f sec", sleeptime)
